@@ -231,6 +231,8 @@ class C18(Check):
             c["filter"] = rng.choice([None, None, {"type": "multiplicative", "order": rng.randint(1, 3)}, {"type": "convolution", "order": rng.randint(1, 3)}])
             c["poisson"] = rng.choice(["greens", "greens", "fastdiag"])
         nb = prng.weighted_choice(rng, [(0, 1), (1, 6), (2, 3)])
+        if dim == 3 and c["flow"] == 2:
+            nb = min(nb, 1)  # only 10 cells along x: room for one body
         c["bodies"] = [self._body_spec(rng.choice(BODY_KINDS[dim]), rng) for _ in range(nb)]
         c["with_forcing"] = nb > 0 or rng.random() < 0.5
         n = rng.randint(2, 6 if tier == "quick" else 10)
